@@ -5,6 +5,7 @@
 (* action per time step, the standard normal z (and, for Merton, the jump   *)
 (* count n and jump normal y) SUPPLIED by the environment.  Values live in  *)
 (* exact domains:                                                           *)
+(*   kou: <<k, sum z, sum n, sum of signed jump log-sizes>>                   *)
 (*   brownian / gbm / merton: coefficient vectors <<k, sum z, sum n, sum y  *)
 (*       sqrt n>> of (drift*dt, sigma*sqrt dt, jump_mean, jump_std); for    *)
 (*       gbm/merton they describe log(S_k / S_0)                            *)
@@ -23,7 +24,7 @@ VARIABLES scheme, k, zs, ns, ys, path
 vars == <<scheme, k, zs, ns, ys, path>>
 
 Init == /\ scheme \in Schemes /\ k = 0 /\ zs = <<>> /\ ns = <<>> /\ ys = <<>>
-        /\ path = << CASE scheme \in {"brownian", "gbm", "merton"} -> <<0, 0, 0, 0>>
+        /\ path = << CASE scheme \in {"brownian", "gbm", "merton", "kou"} -> <<0, 0, 0, 0>>
                        [] scheme = "vasicek" -> <<ROne, RZero>>
                        [] scheme \in {"localvol_const", "localvol_lin"} -> R(2) >>
 
@@ -32,6 +33,9 @@ StepValue(z, n, y) ==
   LET cur == path[Len(path)] IN
   CASE scheme \in {"brownian", "gbm"} -> <<cur[1] + 1, cur[2] + z, 0, 0>>
     [] scheme = "merton"   -> <<cur[1] + 1, cur[2] + z, cur[3] + n, cur[4] + y * ISqrtN(n)>>
+    \* Kou: the n jumps of a step have the signed log-sizes y, 2y, ..., ny (in units of the harness's jump unit); ALL of
+    \* them move the price, so the step adds y n (n + 1) / 2
+    [] scheme = "kou"      -> <<cur[1] + 1, cur[2] + z, cur[3] + n, cur[4] + y * ((n * (n + 1)) \div 2)>>
     [] scheme = "vasicek"  -> <<RMul(cur[1], Q(1, 2)), RAdd(RMul(cur[2], Q(1, 2)), R(z))>>          \* mu = 1/2
     [] scheme = "localvol_const" -> RMul(cur, RAdd(ROne, Q(z, 2)))                                 \* S (1 + 1 * sqrt(dt) z)
     [] scheme = "localvol_lin"   -> RMul(cur, RAdd(ROne, RMul(RDiv(cur, R(4)), Q(z, 2))))          \* sigma = S / 4
@@ -40,7 +44,7 @@ StepValue(z, n, y) ==
 \* (the state-dependent local volatility squares the price at every step: bounded to two steps to stay inside 32 bits)
 Last == IF scheme = "localvol_lin" THEN IMin(T - 1, 2) ELSE T - 1
 Step(z, n, y) == /\ k < Last
-                 /\ (scheme # "merton" => n = 0 /\ y = 0)
+                 /\ (scheme \notin {"merton", "kou"} => n = 0 /\ y = 0)
                  /\ path' = Append(path, StepValue(z, n, y))
                  /\ zs' = Append(zs, z) /\ ns' = Append(ns, n) /\ ys' = Append(ys, y)
                  /\ k' = k + 1 /\ UNCHANGED scheme
@@ -63,7 +67,7 @@ EulerMartingale == scheme \in {"localvol_const", "localvol_lin"} =>
                             dn == IF scheme = "localvol_const" THEN RMul(cur, RAdd(ROne, Q(-z, 2))) ELSE RMul(cur, RAdd(ROne, RMul(RDiv(cur, R(4)), Q(-z, 2))))
                         IN  RAdd(up, dn) = RMul(R(2), cur)
 \* a jump model without jumps is the diffusion
-JumpFreeReduction == (scheme = "merton" /\ (\A j \in 1..Len(ns) : ns[j] = 0)) => \A j \in 1..Len(path) : path[j][3] = 0 /\ path[j][4] = 0
+JumpFreeReduction == (scheme \in {"merton", "kou"} /\ (\A j \in 1..Len(ns) : ns[j] = 0)) => \A j \in 1..Len(path) : path[j][3] = 0 /\ path[j][4] = 0
 \* ---------------------------------------------------------------- design-level moment algebra (exponential models)
 \* Per unit of time the log-price drifts by  DriftCoef . <<mu, sigma^2 / 2, lambda * E[e^J - 1]>>  (this vector is emitted and
 \* the path-wise replay binds it to the code).  By the moment-generating functions of the Gaussian increment
